@@ -29,6 +29,7 @@ def cflags(scratch_inc=None):
         raise Undecided("no configured build directory (parsec_config.h) found under %s/_build" % REPO)
     fl = ["-DBUILDING_PARSEC", "-DYYERROR_VERBOSE", "-D_GNU_SOURCE", "-Dparsec_EXPORTS",
           "-DNDEBUG", "-std=gnu11", "-m64", "-mcx16", "-D" + GUARD]
+    fl += os.environ.get("VERIF_EXTRA_DEFINES", "").split()
     inc = []
     if scratch_inc:
         inc.append(scratch_inc)
